@@ -185,6 +185,17 @@ theorem C12_select_encoded (ops : List OptOp) (objs : List Obj) (st : St)
       rw [fileObj_encode objs (selK ops - 1) (by omega)]
     · simp [hr]
 
+/-- **Discarded segments are inert.**  In single-objective mode two files that agree on objective `k`
+    (per-index reading) deliver the same thing, whatever the segments of the other objectives contain
+    and wherever they are placed in the file. -/
+theorem C12_unselected_inert (ops : List OptOp) (n : Nat) (segs segs' : List Seg) (st st' : St)
+    (h : readNL ops n segs = .ok st) (h' : readNL ops n segs' = .ok st')
+    (hs : selMulti ops = false)
+    (hk : fileObj segs (selK ops - 1) = fileObj segs' (selK ops - 1)) :
+    delivered st = delivered st' := by
+  rw [C12_select ops n segs st h, C12_select ops n segs' st' h']
+  simp only [selected, hs, Bool.false_eq_true, if_false, hk]
+
 /-- the file is read back per index: objective `i` of `encode objs` is `objs[i]` -/
 theorem C12_encode_faithful (objs : List Obj) : fileObjs objs.length (encode objs) = objs := by
   simp only [fileObjs]
